@@ -89,6 +89,11 @@ func (wrapper EpochsHooksWrapper) AfterEpochEnd(
 				// Handle the error gracefully, continue to the next
 				// continue
 			}
+			if err != nil {
+				// GetAVSUSDValue returns an uninitialized LegacyDec together with the error;
+				// using it below would panic with a nil pointer dereference in BeginBlock.
+				taskPowerTotal = sdkmath.LegacyNewDec(0)
+			}
 			taskInfo.TaskTotalPower = taskPowerTotal
 
 			if !taskPowerTotal.IsZero() && !operatorPowerTotal.IsZero() {
